@@ -155,7 +155,7 @@ interpolated into rich markup). The model is a model of the repaired tree.
 
 ### 10.5 Seeded changes (`seeded/<id>/`: patch.diff, demo.py, meta.json) and the checks that catch them
 
-Round 1 (`-a`, `-b`), round 2 (`-c`, `-d`), round 3 (`-e`, `-f`), round 4 (`-g`, `-h`), round 5 (`-i`, `-j`) and round 6 (`-k`, `-l`); (round 4: the sub-agents were told how the harness
+Round 1 (`-a`, `-b`), round 2 (`-c`, `-d`), round 3 (`-e`, `-f`), round 4 (`-g`, `-h`), round 5 (`-i`, `-j`), round 6 (`-k`, `-l`) and round 7 (`-m`, `-n`); (round 4: the sub-agents were told how the harness
 works — reference interpreter, formal model, tens of thousands of generated programs — and asked for the corner it does not look
 into). Round 3: the sub-agents were asked for changes in shared
 infrastructure that break the property indirectly and only for particular values, orders, nesting shapes, option combinations,
@@ -242,6 +242,24 @@ text-mode comparison says "unchanged": a CRLF copy of the same lines, undecodabl
 payload itself, other line endings, prefixes, extensions and non-text bytes; (5) *values that cannot be written out, inside other
 values* — C09-l (the rejected argument is quoted in the message: `DELAY 10^5000,1` → ValueError); (6) *the parenthesis limit at
 small stack limits with an operator at every level* — C14-k (a per-compilation recursion limit derived from the stack limit).
+
+Round 7 (`-m`, `-n`, ten properties, twenty changes; the sub-agents were told that the harness compiles tens of thousands of generated
+programs per run and compares them with an independent reference, and were asked for violations that need a CONJUNCTION of several
+circumstances) was first MISSED in thirteen of twenty cases — the hardest round. What was built in, as rules: (1) *equal in the host
+language, different in the language* — `1`/`TRUE`, `0`/`FALSE` on separate lines, blocks, iterations and calls of one compilation,
+either order (C02-m: a per-compilation cache of accepted values; also C06-m's second trigger, C04-n); (2) *huge intermediate integers
+that are reduced before anything is written out* (C04-m: a size guard on `^`); (3) *what a loop condition may read* — the system
+variable `$DEFAULT_DELAY` changed by the body, values that change only in type (C06-m: the condition cached per snapshot of the user
+variables); (4) *block keywords without a block* and their `$` forms as ordinary pass-through lines INSIDE structured programs, before
+and after the real constructs (astgen `rawkw`; C06-n, C11-n: dispatch caches keyed by the bare word); (5) verbatim text containing a
+line of three quotes at a deeper indentation (C11-m), a triple-quote region at the very top of a file whose lines begin with white
+space of another kind than the file's unit (C03-m), characters that `str.splitlines` treats as line ends inside a line, with LF and
+CRLF line ends (C03-n); (6) `$DEFAULT_DELAY` across START / STARTENV / STARTCODE in both directions, at top level and inside blocks
+and functions (C12-m: import stacks running the commands' init hooks); (7) loop conditions and counts that are fine at first and
+faulty at a LATER evaluation, functions declared again with the same text on other lines (C10-n: recycled iteration stacks; C10-m:
+"unchanged function is not re-registered"); (8) textually identical unknown lines in several files entered from ONE importer line
+(grouped START, `$START "part"+i` in a loop), and unknown words that are also the name of a function, parameter or variable
+(C16-m, C16-n).
 
 | id | property | change | caught by |
 |---|---|---|---|
